@@ -79,6 +79,7 @@ func RunChild(mode string, cases []interface{}, perCase time.Duration) ([]childR
 			close(lines)
 		}()
 		var cur *childResult
+		began := time.Now()
 		done := 0
 		timedOut := false
 	loop:
@@ -90,7 +91,11 @@ func RunChild(mode string, cases []interface{}, perCase time.Duration) ([]childR
 				}
 				if l.T == "B" {
 					cur = &childResult{Case: l.Case}
+					began = time.Now()
 				} else if l.T == "E" && cur != nil {
+					if d := time.Since(began); d > 3*time.Second && os.Getenv("VERIF_SLOW") != "" {
+						fmt.Fprintf(os.Stderr, "slow case (%.1fs) in %s: %s\n", d.Seconds(), mode, tail(string(cur.Case), 700))
+					}
 					cur.Res = l.Res
 					results = append(results, *cur)
 					cur = nil
